@@ -3,13 +3,13 @@
 package sim
 
 import (
-	"bytes"
-	"io"
 	"bufio"
+	"bytes"
 	"context"
 	"encoding/base64"
 	"encoding/json"
 	"fmt"
+	"io"
 	"os"
 	"runtime"
 	"runtime/debug"
@@ -62,20 +62,20 @@ var DataDir string
 var orgIds = []int64{0}
 
 type BootArgs struct {
-	Dir      string   `json:"dir"`
-	Orgs     []int64  `json:"orgs,omitempty"`
-	PQS      *bool    `json:"pqs,omitempty"`
-	Aggs     *bool    `json:"aggs,omitempty"`
-	CardLim  *int     `json:"cardLimit,omitempty"`
-	Recover  bool     `json:"recover,omitempty"`
-	ExtraYml string   `json:"extraYaml,omitempty"`
-	Debug    bool     `json:"debug,omitempty"`
-	Tun      map[string]float64 `json:"tun,omitempty"` // package-level thresholds set before the stores are initialised
-	CrashLog string   `json:"crashLog,omitempty"` // record every mutating fs operation under <dir>/data into this file (crashfs)
-	RelPaths bool     `json:"relPaths,omitempty"` // configure dataPath relative to cwd (= dir) so that a copy of the directory is self-contained
-	RecoverB bool     `json:"recoverBoot,omitempty"` // booting on an existing directory: wait for / run the start-up recovery before answering
-	Server   bool     `json:"server,omitempty"` // boot the whole server (real routers on loopback ports) through StartSiglensServer
-	Features []string `json:"features,omitempty"`
+	Dir      string             `json:"dir"`
+	Orgs     []int64            `json:"orgs,omitempty"`
+	PQS      *bool              `json:"pqs,omitempty"`
+	Aggs     *bool              `json:"aggs,omitempty"`
+	CardLim  *int               `json:"cardLimit,omitempty"`
+	Recover  bool               `json:"recover,omitempty"`
+	ExtraYml string             `json:"extraYaml,omitempty"`
+	Debug    bool               `json:"debug,omitempty"`
+	Tun      map[string]float64 `json:"tun,omitempty"`         // package-level thresholds set before the stores are initialised
+	CrashLog string             `json:"crashLog,omitempty"`    // record every mutating fs operation under <dir>/data into this file (crashfs)
+	RelPaths bool               `json:"relPaths,omitempty"`    // configure dataPath relative to cwd (= dir) so that a copy of the directory is self-contained
+	RecoverB bool               `json:"recoverBoot,omitempty"` // booting on an existing directory: wait for / run the start-up recovery before answering
+	Server   bool               `json:"server,omitempty"`      // boot the whole server (real routers on loopback ports) through StartSiglensServer
+	Features []string           `json:"features,omitempty"`
 }
 
 var booted bool
